@@ -109,17 +109,19 @@ def alphabet(kind, tier):
         # 1.46 / 1.54 round to 1.5 at precision 1: a bound of 1.5 lies between value and grid point
         vals = [1.5, 0.0, float("inf"), 1, "x", None, 1e308, 1.46, 1.54, float("nan")] \
             + ([float("-inf"), -0.0, 2.675] if T else [])
-        bounds = [0.15, 1.5, 2.5, 1, None, "x", E] + ([float("inf"), -1.0] if T else [])
+        # 1.5000000001 / 1.4999999999 are within math.isclose of the value 1.5 and on its wrong side
+        bounds = [0.15, 1.5, 2.5, 1, None, "x", E, 1.5000000001, 1.4999999999] \
+            + ([float("inf"), -1.0] if T else [])
         precs = [1, 2, 15, 16, 0, -1, True, 1.5, "x", None]
         return ([(c, (v,)) for v in vals] + [(m, (v,)) for m in ("min", "max") for v in bounds]
                 + [("precision", (v,)) for v in precs])
     if kind == "str":
         lens = [(0,), (1,), (2,), (33,), (-1,), (True,), (1, E), (2, E), (E, 1), (E, 2), (1, 2), (2, 1),
                 (E, E), (Nil,), ("x",), (1.5,), (None,), (1, "x"), (E, None), (0, E), (E, 0), (E,), (1, Nil)]
-        return ([(c, (v,)) for v in ("", "a", "ab", "abc", 1, None, b"a", E)]
+        return ([(c, (v,)) for v in ("", "a", "ab", "abc", 1, None, b"a", E, "{id}", "a{0}")]
                 + [("len", a) for a in lens]
-                + [("alphabet", (v,)) for v in ("", "a", "ab", "abc", 1, None, E)]
-                + [("contains", (v,)) for v in ("", "a", "ab", "c", 1, None, E)]
+                + [("alphabet", (v,)) for v in ("", "a", "ab", "abc", 1, None, E, "{}id0a")]
+                + [("contains", (v,)) for v in ("", "a", "ab", "c", 1, None, E, "{")]
                 + [("regex", (v,)) for v in ("a", "[ab]+", "^a.$", "a{2}", "*", "(",
                                              "a{99999999999999999999}", 1, None, E)])
     if kind == "bool":
@@ -143,11 +145,13 @@ def alphabet(kind, tier):
         return [(c, (v,)) for v in calls] + [("len", a) for a in lens]
     if kind == "dict":
         calls = [{}, {"a": SI}, {Opt("a"): SI, E: E}, {E: E}, {"a": E}, {E: SI}, {"a": 1},
-                 {Opt("a"): E}, [], None, E, "x", {"a": SI, "b": SA}, {1: SI, (1, 2): SA, None: SI}]
+                 {Opt("a"): E}, [], None, E, "x", {"a": SI, "b": SA}, {1: SI, (1, 2): SA, None: SI},
+                 # keys that are format-template text (every DeclarationError quotes repr(receiver))
+                 {"{id}": SI, Opt("{}"): SA, "a}b{0}": SI}]
         return [(c, (v,)) for v in calls]
     if kind == "any":
         calls = [(SI,), (SI, SS), (Sch(("any", (INT,))), Sch(NONE)), (1,), (SI, None), (E,), (None,),
-                 (Sch(("any", None)),)]
+                 (Sch(("any", None)),), (Sch(("any", (STR,))),), (Sch(("any", (INT, STR))),)]
         return [(c, a) for a in calls]
     raise ValueError(kind)
 
